@@ -422,10 +422,17 @@ func nfBody(in ssa.CallInstruction, f *ssa.Function) *ssa.Function {
 // `depth` levels). A deferred or spawned call has not happened
 // when the instruction completes: only direct effects are listed for those.
 func nfMust(f *ssa.Function, fr *nfFrame, is func(nc nfCall, fr *nfFrame) bool, depth int) []nfSite {
-	return nfMustBusy(f, fr, is, depth, map[*ssa.Function]bool{})
+	return nfMustBusy(f, fr, is, depth, map[*ssa.Function]bool{}, false)
 }
 
-func nfMustBusy(f *ssa.Function, fr *nfFrame, is func(nc nfCall, fr *nfFrame) bool, depth int, busy map[*ssa.Function]bool) []nfSite {
+// nfMustLocal is nfMust following only closures of the enclosing function, not
+// other functions of the package: for effects named so generically (a Put on
+// some view) that an unrelated callee performing one must not count.
+func nfMustLocal(f *ssa.Function, fr *nfFrame, is func(nc nfCall, fr *nfFrame) bool, depth int) []nfSite {
+	return nfMustBusy(f, fr, is, depth, map[*ssa.Function]bool{}, true)
+}
+
+func nfMustBusy(f *ssa.Function, fr *nfFrame, is func(nc nfCall, fr *nfFrame) bool, depth int, busy map[*ssa.Function]bool, localOnly bool) []nfSite {
 	var out []nfSite
 	busy[f] = true
 	defer delete(busy, f)
@@ -439,10 +446,10 @@ func nfMustBusy(f *ssa.Function, fr *nfFrame, is func(nc nfCall, fr *nfFrame) bo
 			continue
 		}
 		g := nfBody(ci, f)
-		if g == nil || busy[g] {
+		if g == nil || busy[g] || (localOnly && g.Parent() == nil) {
 			continue
 		}
-		inner := nfMustBusy(g, &nfFrame{call: ci, up: fr}, is, depth-1, busy)
+		inner := nfMustBusy(g, &nfFrame{call: ci, up: fr}, is, depth-1, busy, localOnly)
 		if len(inner) == 0 {
 			continue
 		}
@@ -954,4 +961,9 @@ func nfViewArg(e nfEff, ctorPat string) (ssa.Value, *nfFrame) {
 		}
 	}
 	return nil, nil
+}
+
+// nfSitesLocal is nfSites following closures only (see nfMustLocal).
+func nfSitesLocal(f *ssa.Function, pat string) []nfSite {
+	return nfMustLocal(f, nil, nfNamed(pat), 2)
 }
